@@ -43,14 +43,16 @@ Ltac all_q Hq :=
   let go l := (let H := fresh "Q" in pose proof (quiescent_none _ _ Hq l ltac:(simpl; tauto)) as H) in
   go (IPreface true); go IJoin; go ICallerClose;
   go (IRead Cl); go (IReadEnd Cl); go (ITake Cl false); go (ISelErr Cl); go (ISelClosing Cl); go (ISelDone Cl);
-  go (ILock Cl); go (ISend Cl); go (IAbort Cl); go (IUnlock Cl false); go (IWrite Cl false); go (IHandshake Cl); go (IStop Cl);
+  go (ILock Cl); go (ISend Cl); go (IAbort Cl); go (IUnlock Cl false); go (IWrite Cl false); go (IWriteUnblock Cl false); go (IErrHandoff Cl); go (IHandshake Cl); go (IStop Cl);
   go (IRead Sv); go (IReadEnd Sv); go (ITake Sv false); go (ISelErr Sv); go (ISelClosing Sv); go (ISelDone Sv);
-  go (ILock Sv); go (ISend Sv); go (IAbort Sv); go (IUnlock Sv false); go (IWrite Sv false); go (IHandshake Sv); go (IStop Sv).
+  go (ILock Sv); go (ISend Sv); go (IAbort Sv); go (IUnlock Sv false); go (IWrite Sv false); go (IWriteUnblock Sv false); go (IErrHandoff Sv); go (IHandshake Sv); go (IStop Sv).
 
 Ltac red_q :=
+  unfold blocks in *;
   cbn [step getd setd with_rd with_rd_rf exit_failed set_trig set_remote remote local_closed is_emit_on side_eqb
        dc ds main cli srv wbroken_c wbroken_s sc_closed cc_closed closing done trig
        rd wr wfailed werr chan queued rf inflight other cfg_fixed cfg_orig fix_close fix_done fix_abort
+       werr_buffered wbroken blocks is_stalled not_errsend
        andb orb negb conn_open rf_gone in_loop writer_alive reader_alive] in *.
 
 Ltac qd :=
@@ -64,6 +66,8 @@ Ltac qd :=
          | H : context [?v || _] |- _ => is_var v; destruct v; red_q
          | H : context [negb ?v] |- _ => is_var v; destruct v; red_q
          | H : context [conn_open ?v] |- _ => is_var v; destruct v; red_q
+         | H : context [is_stalled ?v] |- _ => is_var v; destruct v; red_q
+         | H : context [not_errsend ?v] |- _ => is_var v; destruct v; red_q
          | H : context [getd _ ?v] |- _ => is_var v; destruct v; red_q
          | H : context [writer_alive ?v] |- _ => is_var v; destruct v; red_q
          | H : context [reader_alive ?v] |- _ => is_var v; destruct v; red_q
@@ -74,13 +78,14 @@ Ltac qd :=
          end.
 
 Lemma returns_fixed : forall s,
-  reachable cfg_fixed s -> quiescentb cfg_fixed s = true -> Ev s -> main s = MReturned.
+  reachable cfg_fixed s -> quiescentb cfg_fixed s = true -> Ev s ->
+  blocks s Cl = false -> blocks s Sv = false -> main s = MReturned.
 Proof.
-  intros s Hr Hq Hev.
+  intros s Hr Hq Hev Hb1 Hb2.
   destruct (inv_reachable _ Hr) as (Hc & Hv & Hg & _).
   destruct_state s.
   all_q Hq. clear Hq Hr.
-  unfold dinv, dir_inv, glob1 in *. red_q. split_hyps.
+  unfold dinv, dir_inv, glob1, blocks in *. red_q. split_hyps.
   destruct m_; [exfalso; discriminate Q | exfalso | reflexivity].
   red_q.
   qd.
@@ -88,17 +93,18 @@ Proof.
 Qed.
 
 Lemma no_goroutine_fixed : forall s,
-  reachable cfg_fixed s -> quiescentb cfg_fixed s = true -> Ev s -> goroutines s = 0.
+  reachable cfg_fixed s -> quiescentb cfg_fixed s = true -> Ev s ->
+  blocks s Cl = false -> blocks s Sv = false -> goroutines s = 0.
 Proof.
-  intros s Hr Hq Hev.
-  pose proof (returns_fixed s Hr Hq Hev) as Hm.
+  intros s Hr Hq Hev Hb1 Hb2.
+  pose proof (returns_fixed s Hr Hq Hev Hb1 Hb2) as Hm. clear Hb1 Hb2.
   destruct (inv_reachable _ Hr) as (Hc & Hv & Hg & _).
   destruct_state s. simpl in Hm. subst m_.
   pose proof (quiescent_none _ _ Hq ICallerClose ltac:(simpl; tauto)) as Q1.
   pose proof (quiescent_none _ _ Hq (IReadEnd Cl) ltac:(simpl; tauto)) as Q2.
   pose proof (quiescent_none _ _ Hq (IReadEnd Sv) ltac:(simpl; tauto)) as Q3.
   clear Hq Hr Hev.
-  unfold dinv, dir_inv, glob1 in *. red_q. split_hyps.
+  unfold dinv, dir_inv, glob1, blocks in *. red_q. split_hyps.
   qd; simpl; try reflexivity.
 Qed.
 
@@ -106,7 +112,8 @@ Lemma upstream_closed_fixed : forall s,
   reachable cfg_fixed s -> main s = MReturned -> sc_closed s = true.
 Proof.
   intros s Hr Hm. destruct (inv_reachable _ Hr) as (_ & _ & Hg & _).
-  unfold glob1 in Hg. rewrite Hm in Hg. exact Hg.
+  unfold glob1 in Hg. rewrite Hm in Hg.
+  apply andb_prop in Hg. destruct Hg as [Hg _]. apply andb_prop in Hg. destruct Hg as [Hg _]. exact Hg.
 Qed.
 
 Lemma trig_ev_fixed : forall s, reachable cfg_fixed s -> trig s = true -> Ev s.
@@ -120,14 +127,14 @@ Definition no_stuck_emit (s : state) : Prop :=
 
 Lemma returns_partial_orig : forall s,
   reachable cfg_orig s -> quiescentb cfg_orig s = true -> closing s = true ->
-  no_stuck_emit s -> main s = MReturned.
+  no_stuck_emit s -> blocks s Cl = false -> blocks s Sv = false -> main s = MReturned.
 Proof.
-  intros s Hr Hq Hcl Hns.
+  intros s Hr Hq Hcl Hns Hb1 Hb2.
   destruct (dinv_reachable_any _ _ Hr) as (Hc & Hv).
   pose proof (Hns Cl) as N1. pose proof (Hns Sv) as N2. clear Hns.
   destruct_state s. simpl in Hcl. subst clo_.
   all_q Hq. clear Hq Hr.
-  unfold dinv, dir_inv in *. red_q. split_hyps.
+  unfold dinv, dir_inv, blocks in *. red_q. split_hyps.
   destruct m_; [exfalso; discriminate Q | exfalso | reflexivity].
   red_q.
   destruct rdc, rds; red_q; qd;
